@@ -140,6 +140,12 @@ def execute(prog):
     try:
         sk = lk.SigningKey.from_secret_exponent(d, curve)
         sk2 = lk.SigningKey.from_secret_exponent(d2, curve)
+        # the verifier holds keys it received as bytes (a different object
+        # from the signer's: no shared generator / table / scaling state)
+        vk_rx = lk.VerifyingKey.from_string(
+            sk.verifying_key.to_string("uncompressed"), curve)
+        vk2_rx = lk.VerifyingKey.from_string(
+            sk2.verifying_key.to_string("uncompressed"), curve)
         for it in prog["items"]:
             out["ops"] += 1
             kind = it["kind"]
@@ -160,7 +166,8 @@ def execute(prog):
                 e_sign = ec.digest_to_int(digest, n) if allow else \
                     int.from_bytes(digest, "big")
             verifier_Q = Q
-            vkey = sk.verifying_key
+            received = it["fseed"] % 2 == 0
+            vkey = vk_rx if received else sk.verifying_key
             v_digest = digest
             v_msg = msg
             v_hf = hf
@@ -254,7 +261,7 @@ def execute(prog):
                     out["nontrivial"] = True
                 elif kind == "other_key":
                     verifier_Q = Q2
-                    vkey = sk2.verifying_key
+                    vkey = vk2_rx if received else sk2.verifying_key
                     core.bump(out["faults"], "misdeliver_key")
                     out["nontrivial"] = True
                 elif kind == "other_hash" and v_msg is not None:
